@@ -281,7 +281,8 @@ pub fn run_c07(rep: &mut Report, thorough: bool) {
     let c = s.cookies[&key_of(&f)];
     let t0 = std::time::Instant::now();
     let seqs: Vec<u32> = vec![0, 1, 0x7fffffff, 0x80000000, 0xffffff00, 0xfffffffe, 0xffffffff];
-    let lens: Vec<usize> = vec![0, 1, 2, 255, 256, 1000, 1400];
+    // (incl. segments beyond one 1460-byte MSS: jumbo / coalesced frames up to the 4096-byte buffer)
+    let lens: Vec<usize> = vec![0, 1, 2, 255, 256, 1000, 1400, 1459, 1460, 1461, 1500, 2048, 3000, 3900];
     let doffs: Vec<u8> = (5..=15).collect();
     let total = (seqs.len() * lens.len() * doffs.len()) as u64 + 65536;
     let opts = RunOpts::new("arith").stateful().chunk(64).no_monitor();
@@ -314,7 +315,7 @@ pub fn run_c07(rep: &mut Report, thorough: bool) {
         },
         &mut rep.sink,
     );
-    rep.stage("arith", "validated flow: 7 sequence numbers x 7 payload lengths x data offsets 5..15 (TCP options); FIN|ACK acknowledgement high half over all 65536 values", total, t0);
+    rep.stage("arith", "validated flow: 7 sequence numbers x 14 payload lengths (0..3900) x data offsets 5..15 (TCP options); FIN|ACK acknowledgement high half over all 65536 values", total, t0);
     ack_neighbourhood(&s, rep, "C07");
     source_mac_stage(&s.cfg, rep, "C07");
     sibling_bfs(&s.cfg, rep, "bfs-c07-sibling-destinations", thorough);
